@@ -160,7 +160,7 @@ def _as_coro(fn, rig=None):
 
 # ---- element alphabet (C02 / C03 / C11 / C10) ---------------------------------------------------------
 CALL_BEHAVIOURS = ('ok', 'unknown', 'nobind', 'perr', 'boom')
-ELEMENTS = tuple(f'{c}:{b}' for c in ('call', 'notif') for b in CALL_BEHAVIOURS) + ('nonobj', 'nomethod')
+ELEMENTS = tuple(f'{c}:{b}' for c in ('call', 'notif') for b in CALL_BEHAVIOURS) + ('nonobj', 'nomethod', 'badparams')
 
 
 def element(env, kind: str, i: int, idtype: str = 'i', strlen: int = 2):
@@ -169,6 +169,9 @@ def element(env, kind: str, i: int, idtype: str = 'i', strlen: int = 2):
         return env.int(f'x{i}'), {'valid': False, 'idtag': 'n', 'id': None, 'b': None}
     if kind == 'nomethod':
         return {'jsonrpc': '2.0', 'id': env.int(f'id{i}')}, {'valid': False, 'idtag': 'n', 'id': None, 'b': None}
+    if kind == 'badparams':         # params present but neither array nor object (any integer, 0 included): not a valid request
+        return ({'jsonrpc': '2.0', 'id': env.int(f'id{i}'), 'method': 'echo', 'params': env.int(f'bp{i}')},
+                {'valid': False, 'idtag': 'n', 'id': None, 'b': None})
     c, b = kind.split(':')
     doc: Dict[str, Any] = {'jsonrpc': '2.0'}
     if b == 'ok':
